@@ -49,6 +49,9 @@ def main():
     for d in sorted(glob.glob('/tmp/w8_*/_seeded/m*')):
         pid = d.split('/')[2][3:]
         items.append((f'{pid}-r8{os.path.basename(d)}', os.path.join(d, 'patch.diff')))
+    for d in sorted(glob.glob('/tmp/w9_*/_seeded/m*')):
+        pid = d.split('/')[2][3:]
+        items.append((f'{pid}-r9{os.path.basename(d)}', os.path.join(d, 'patch.diff')))
     for d in sorted(glob.glob('/tmp/w6_*/_seeded/m*')):
         pid = d.split('/')[2][3:]
         items.append((f'{pid}-r6{os.path.basename(d)}', os.path.join(d, 'patch.diff')))
